@@ -47,7 +47,7 @@ var c09PanicExceptions = map[string]string{
 var c09IndexExceptions = map[string]string{}
 
 func checkC09(w *World, r *Report) {
-	r.Explanation = "Structural clause of C09: over every module function reachable (repaired VTA call graph) from CheckTx, DeliverTx and Query — and from BeginBlock and EndBlock, which later process what accepted transactions stored —, (P-1) no explicit panic, always-panicking callee or Must* helper is reachable except a listed construct with its invariant; (P-2) every payload type assertion without comma-ok sits where the set of possible transaction types (dataflow over the tx-type tests, interprocedural) maps only to the payload type that Trx.fromProto allocates; (P-3) every slice/index expression on a slice whose bounds are not compile-time safe has a dominating length guard or clamp idiom; (P-4) results of module functions that return nil together with an error / may return nil are not dereferenced where the error is known non-nil or without a nil test; (P-5) every integer division by a non-constant has a dominating non-zero guard or a listed invariant; (P-7) every string stored in a ledger item (protobuf `string` fields must be valid UTF-8 or the encoder fails and Commit halts the node) originates from constants, fields or transaction text handed on unchanged — not from a conversion of bytes or a library routine that can yield arbitrary bytes; (P-6) every pointer-typed field of Trx / a payload type that the input paths dereference without a nil test is set non-nil on every success path of every function on the input paths that allocates such an object (directly or through a decoder call that establishes it, interprocedurally)."
+	r.Explanation = "Structural clause of C09: over every module function reachable (repaired VTA call graph) from CheckTx, DeliverTx and Query — and from BeginBlock and EndBlock, which later process what accepted transactions stored —, (P-1) no explicit panic, always-panicking callee or Must* helper is reachable except a listed construct with its invariant; (P-2) every payload type assertion without comma-ok sits where the set of possible transaction types (dataflow over the tx-type tests, interprocedural) maps only to the payload type that Trx.fromProto allocates; (P-3) every slice/index expression on a slice whose bounds are not compile-time safe has a dominating length guard or clamp idiom; (P-4) results of module functions that return nil together with an error / may return nil are not dereferenced where the error is known non-nil or without a nil test; (P-5) every integer division by a non-constant has a dominating non-zero guard or a listed invariant; (P-7) every string stored in a ledger item (protobuf `string` fields must be valid UTF-8 or the encoder fails and Commit halts the node) originates from constants, fields or transaction text handed on unchanged — not from a conversion of bytes or a library routine that can yield arbitrary bytes; (P-6) every pointer-typed field of Trx / a payload type that the input paths dereference without a nil test is set non-nil on every success path of every function on the input paths that allocates such an object (directly or through a decoder call that establishes it, interprocedurally); (P-8) a pointer-typed controller field that start-up (constructor, and Info for the application) leaves nil and block execution creates is not dereferenced, without a nil test of the field, at a point that can run in a CheckTx or Query context (such a request can arrive after a restart and before the first BeginBlock)."
 	r.NotCovered = "whether an error a controller returns from BeginBlock/EndBlock (which RigoApp turns into a deliberate fail-stop panic) can be provoked by stored transaction data; panics inside dependencies on hostile input (protobuf, rlp, iavl, go-ethereum, tendermint rpc core used by vm_call); resource exhaustion; nil dereferences of struct fields other than those of the decoded request objects (P-6) that are nil by construction rather than by a returned nil; guards whose removal cannot cause a panic (address/hash length checks: every consumer clamps) are deliberately not obligations."
 
 	roots := w.entrySet("CheckTx", "DeliverTx", "Query", "BeginBlock", "EndBlock")
